@@ -108,6 +108,23 @@ func (c *Case) Exec(t *eng.T) {
 		return
 	}
 	if tpl == nil {
+		// the set's rendering shortcuts return (string, error): the same failure comes back as their error
+		var rerr error
+		site, msg, pan := eng.Protect(func() {
+			if len(files) > 0 && string(c.Src) == "" {
+				_, rerr = set.RenderTemplateFile("/main", ctx)
+			} else {
+				_, rerr = set.RenderTemplateString(string(c.Src), ctx)
+				if rerr != nil {
+					_, rerr = set.RenderTemplateBytes([]byte(string(c.Src)), ctx)
+				}
+			}
+		})
+		if pan {
+			t.Fail("panic:render-shortcut:"+site, "%s does not compile (%s) and the set's RenderTemplate* shortcut panics instead of returning the error: %s", c.ID(), out.Err, msg)
+		} else if rerr == nil {
+			t.Fail("contract:render-shortcut-no-error", "%s does not compile (%s) but the set's RenderTemplate* shortcut returns no error", c.ID(), out.Err)
+		}
 		t.Outcome("compile-error")
 		return
 	}
